@@ -2,6 +2,7 @@ package checks
 
 import (
 	"bufio"
+	"bytes"
 	"crypto/sha1"
 	"encoding/hex"
 	"encoding/json"
@@ -112,6 +113,30 @@ func respText(m map[string]interface{}) string {
 		}
 	}
 	return ref.Render(ref.Canon(m["data"])) + msgs
+}
+
+// c12WriteCheck writes a response with ggql's JSON writer (and its data with the SDL value writer) and reads the JSON back
+// with encoding/json: the decoded data must be the data that was written.
+func c12WriteCheck(res map[string]interface{}, indent int) string {
+	var b bytes.Buffer
+	if err := ggql.WriteJSONValue(&b, res, indent); err != nil {
+		return "WriteJSONValue: " + err.Error()
+	}
+	var back map[string]interface{}
+	dec := json.NewDecoder(bytes.NewReader(b.Bytes()))
+	dec.UseNumber()
+	if err := dec.Decode(&back); err != nil {
+		return fmt.Sprintf("the JSON text of a response does not parse: %v: %.200s", err, b.String())
+	}
+	var backV interface{} = back
+	if d := jsonSame(stdView(res), numView(backV), ""); d != "" {
+		return fmt.Sprintf("JSON text decodes to another structure at %s: %.300s", d, b.String())
+	}
+	var sb bytes.Buffer
+	if err := ggql.WriteSDLValue(&sb, res["data"], indent); err != nil {
+		return "WriteSDLValue: " + err.Error()
+	}
+	return ""
 }
 
 // c12Child runs rounds [from,to) and writes a JSON report.
@@ -233,6 +258,15 @@ func c12Child(args []string) int {
 					ri := (gi*7 + k*3 + round) % len(reqs)
 					rq := reqs[ri]
 					res := root.ResolveString(rq.text, rq.op, copyVars(rq.vars))
+					// every goroutine also serialises its own response (JSON and SDL value writers are part of answering
+					// a request): the text must decode to the response it was written from, whatever the others write
+					if d := c12WriteCheck(res, (gi+k)%3-1); d != "" {
+						pmu.Lock()
+						if len(rep.Mismatches) < 10 {
+							rep.Mismatches = append(rep.Mismatches, c12Mismatch{Round: round, Kind: kind + " (serialisation)", Request: rq.text, Alone: "the response value", Together: d})
+						}
+						pmu.Unlock()
+					}
 					got[gi] = append(got[gi], respText(res))
 					idx[gi] = append(idx[gi], ri)
 					atomic.AddInt64(&progress, 1)
